@@ -31,7 +31,10 @@ def with_extra(spec):
 class ProgramRun(object):
     """One evolution program (list of steps of app 'va') from a start."""
 
-    def __init__(self, start, steps, rows, extra_model):
+    def __init__(self, start, steps, rows, extra_model, purge=False,
+                 db='default'):
+        self.purge = purge
+        self.db = db
         self.start = start
         self.steps = steps
         self.rows = rows
@@ -41,21 +44,29 @@ class ProgramRun(object):
             final = ML.apply(final, label, mj)
         self.final = with_extra(final) if extra_model else final
         self.final_plain = final
-        self.base_image = D.baseline(start, rows=rows)
+        if purge:
+            # a stale app (installed in the database, gone from the code)
+            with_old = S.clone(start)
+            with_old['apps'].append(A('vold', [M('Old', [
+                F('x', 'Char', max_length=20, db_index=True)])]))
+            self.base_image = D.baseline(with_old, rows=rows, db=db)
+        else:
+            self.base_image = D.baseline(start, rows=rows, db=db)
 
     def execute(self, fault_at=None):
         from django_evolution import management
         MZ.install(self.final)
-        B.restore(self.base_image, 'default')
+        B.restore(self.base_image, self.db)
         B.reset_globals()
         seq = [0]
-        tracer = O.Tracer('default', fault_at=fault_at, seq=seq,
+        tracer = O.Tracer(self.db, fault_at=fault_at, seq=seq,
                           match=lambda q: not acceptor.is_bookkeeping(q))
         real = [ML.to_real(mj) for _l, mj in self.steps]
         evos = [{'label': 'e1', 'mutations': real}] if real else []
         lock_before = management._evolve_lock
         with O.SignalLog(seq) as log:
-            res = D.d2('va', evos, tracer=tracer)
+            res = D.d2('va', evos, tracer=tracer, purge=self.purge,
+                       db=self.db)
         return {'res': res, 'events': log.events,
                 'statements': tracer.statements, 'tracer': tracer,
                 'lock_before': lock_before,
@@ -63,10 +74,11 @@ class ProgramRun(object):
 
 
 def judge_program(pr, stats, add7, add17):
-    desc = c03.abstract_path(pr.steps) + (' + new model' if pr.extra else '')
-    B.restore(pr.base_image, 'default')
+    desc = c03.abstract_path(pr.steps) + (' + new model' if pr.extra else '') \
+        + (' + purge' if pr.purge else '')
+    B.restore(pr.base_image, pr.db)
     MZ.install(pr.final)
-    pre = EB.canonical_state()
+    pre = EB.canonical_state(alias=pr.db)
     run0 = pr.execute()
     stats['programs'] += 1
     if not run0['res'].ok:
@@ -74,11 +86,11 @@ def judge_program(pr, stats, add7, add17):
         return
     # domain: the fault-free run must itself be C01-clean
     ent = R.fresh(pr.final)
-    schema = O.schema_dump('default', skip=c03.SKIP_TABLES)
+    schema = O.schema_dump(pr.db, skip=c03.SKIP_TABLES)
     if schema != ent['schema']:
         stats['skipped_not_c01_clean'] += 1
         return
-    good = EB.canonical_state()
+    good = EB.canonical_state(alias=pr.db)
     effects = run0['tracer'].effects()
     n = len(effects)
     stats['statements'] += n
@@ -86,7 +98,8 @@ def judge_program(pr, stats, add7, add17):
     # C17 on the fault-free run
     for clause, detail in acceptor.check(
             run0['events'], run0['statements'], 'ok',
-            run0['lock_before'], run0['lock_after'], saved=True):
+            run0['lock_before'], run0['lock_after'], saved=True,
+            purge=pr.purge):
         add17('C17|%s|fault-free|%s' % (clause, shape17(pr)), pr, None,
               detail)
     stats['runs'] += 1
@@ -98,12 +111,14 @@ def judge_program(pr, stats, add7, add17):
         stats['faulted_runs'] += 1
         res = run['res']
         sk = effects[k - 1]
-        where = stmt_shape(sk[0]) + ('|with-new-model' if pr.extra else '')
+        where = stmt_shape(sk[0]) + ('|with-new-model' if pr.extra else '') \
+            + ('|with-purge' if pr.purge else '') \
+            + ('|db=other' if pr.db != 'default' else '')
         if res.ok:
             add7('C07|fault-swallowed|%s' % where, pr, k,
                  {'statement': sk[0]})
             continue
-        post = EB.canonical_state()
+        post = EB.canonical_state(alias=pr.db)
         if post != pre:
             add7('C07|state-changed-after-failed-run|%s|%s' % (
                 diff_kind(pre, post), where), pr, k,
@@ -120,14 +135,14 @@ def judge_program(pr, stats, add7, add17):
         # C17 on the faulted run
         for clause, detail in acceptor.check(
                 run['events'], run['statements'], 'failed',
-                run['lock_before'], run['lock_after']):
+                run['lock_before'], run['lock_after'], purge=pr.purge):
             add17('C17|%s|fault|%s' % (clause, where), pr, k, detail)
         # retry without the fault, on the database as the failed run left it
         B.reset_globals()
         MZ.install(pr.final)
         real = [ML.to_real(mj) for _l, mj in pr.steps]
         evos = [{'label': 'e1', 'mutations': real}] if real else []
-        res2 = D.d2('va', evos)
+        res2 = D.d2('va', evos, purge=pr.purge, db=pr.db)
         stats['runs'] += 1
         if not res2.ok:
             if post == pre:
@@ -138,7 +153,7 @@ def judge_program(pr, stats, add7, add17):
                     c03.norm_msg(str(getattr(res2.exc, 'detailed_error',
                                              None) or res2.exc)), where),
                      pr, k, {'error': str(res2.exc)[:300]})
-        elif EB.canonical_state() != good:
+        elif EB.canonical_state(alias=pr.db) != good:
             add7('C07|retry-result-differs|%s' % where, pr, k, {})
 
 
@@ -177,7 +192,9 @@ def shape17(pr):
 
 
 def work(task):
-    name, start, steps, rows, extra = task
+    name, start, steps, rows, extra = task[:5]
+    purge = task[5] if len(task) > 5 else False
+    db = task[6] if len(task) > 6 else 'default'
     stats = {'programs': 0, 'runs': 0, 'faulted_runs': 0, 'statements': 0,
              'max_statements': 0, 'skipped_faultfree_fails': 0,
              'skipped_not_c01_clean': 0, 'programs_without_sql': 0,
@@ -187,7 +204,8 @@ def work(task):
     def adder(store):
         def add(fp, pr, k, detail):
             replay = {'start': pr.start, 'steps': pr.steps, 'rows': pr.rows,
-                      'extra_model': pr.extra, 'fault_at': k}
+                      'extra_model': pr.extra, 'fault_at': k,
+                      'purge': pr.purge, 'db': pr.db}
             size = len(S.canon(replay))
             ent = store.get(fp)
             if ent is None:
@@ -198,7 +216,7 @@ def work(task):
                 if size < ent['size']:
                     ent.update(exemplar=replay, detail=detail, size=size)
         return add
-    pr = ProgramRun(start, steps, rows, extra)
+    pr = ProgramRun(start, steps, rows, extra, purge=purge, db=db)
     judge_program(pr, stats, adder(v7), adder(v17))
     if stats['faulted_runs']:
         stats['samples'].append({'start': 'narrow/two-model start',
@@ -246,7 +264,22 @@ def tasks_for(tier):
         add('narrow-d2', narrow, 2, 'lite', KINDS, (False,))
         add('two-model-d1', two, 1, 'full', None, (False,))
         tasks.append(('new-model-only', narrow, [], 'R2', True))
+        # an evolution and a purge of a stale app in the same run (two
+        # task classes)
+        for i, steps in enumerate(gen_programs(narrow, 1, 'lite', KINDS)):
+            tasks.append(('purge#%d' % i, narrow, steps, 'R2', False, True))
+        tasks.append(('purge-only', narrow, [], 'R2', False, True))
+        # the same on a non-default database
+        for i, steps in enumerate(gen_programs(narrow, 1, 'lite', KINDS)):
+            tasks.append(('otherdb#%d' % i, narrow, steps, 'R2', False,
+                          False, 'other'))
     else:
+        for i, steps in enumerate(gen_programs(narrow, 2, 'lite', KINDS)):
+            tasks.append(('otherdb#%d' % i, narrow, steps, 'R2', False,
+                          False, 'other'))
+        for i, steps in enumerate(gen_programs(narrow, 2, 'lite', KINDS)):
+            tasks.append(('purge#%d' % i, narrow, steps, 'R2', False, True))
+        tasks.append(('purge-only', narrow, [], 'R2', False, True))
         add('narrow-d2', narrow, 2, 'full', KINDS, (False, True))
         add('narrow-d3', narrow, 3, 'lite', KINDS, (False,))
         add('two-model-d2', two, 2, 'lite', KINDS + ('RenameModel',
@@ -319,7 +352,8 @@ def replay(path, prop='C07'):
         def add(fp, pr, k, detail):
             store.setdefault(fp, []).append((k, detail))
         return add
-    pr = ProgramRun(r['start'], steps, r.get('rows'), r.get('extra_model'))
+    pr = ProgramRun(r['start'], steps, r.get('rows'), r.get('extra_model'),
+                    purge=r.get('purge', False), db=r.get('db', 'default'))
     judge_program(pr, stats, adder(v7), adder(v17))
     store = v7 if prop == 'C07' else v17
     for fp, items in store.items():
